@@ -4,6 +4,7 @@ package main
 
 import (
 	"bufio"
+	"os"
 	"fmt"
 	"io"
 	"os/exec"
@@ -27,9 +28,13 @@ type Solver struct {
 
 func NewSolver(argv ...string) *Solver {
 	if len(argv) == 0 {
-		argv = []string{"z3", "-in"}
+		argv = defaultSolver()
 	}
 	s := &Solver{argv: argv}
+	if p := os.Getenv("GOSYM_SMTLOG"); p != "" {
+		f, _ := os.OpenFile(p, os.O_CREATE|os.O_WRONLY|os.O_APPEND, 0o644)
+		s.log = f
+	}
 	s.start()
 	return s
 }
@@ -188,4 +193,25 @@ func (s *Solver) readValues(n int) Witness {
 	}
 	_ = fmt.Sprint
 	return w
+}
+
+var solverOnce []string
+
+// defaultSolver: GOSYM_SOLVER overrides; otherwise z3-new (5.1.0) when present
+// (about an order of magnitude faster on the incremental push/pop workload
+// than z3 4.8.12), else z3.
+func defaultSolver() []string {
+	if solverOnce != nil {
+		return solverOnce
+	}
+	if v := os.Getenv("GOSYM_SOLVER"); v != "" {
+		solverOnce = strings.Fields(v)
+		return solverOnce
+	}
+	if p, err := exec.LookPath("z3-new"); err == nil {
+		solverOnce = []string{p, "-in"}
+		return solverOnce
+	}
+	solverOnce = []string{"z3", "-in"}
+	return solverOnce
 }
